@@ -25,29 +25,3 @@ func (h *vpRecHash) BlockSize() int              { return 64 }
 
 func vpNewRecHash() hash.Hash { return &vpRecHash{} }
 
-// vpTreeSpec builds a small symbolic tree at path: a file, a symlink or a
-// directory with up to two entries (files, links, one nested directory).
-func vpTreeSpec(tag, path string, depth int) {
-	switch vpChoice(tag+".kind", 3) {
-	case 0:
-		vpMkFile(path, vpNondetString(tag+".content", 1), 0o644)
-	case 1:
-		tgt := vpNondetStringFrom(tag+".target", 2, "ab/")
-		vpAssume(tgt != "" && tgt[0] != '/') // relative symlinks (absolute ones are warned about by please)
-		vpMkLink(path, tgt)
-	case 2:
-		vpMkDir(path)
-		if depth <= 0 {
-			return
-		}
-		n := vpChoice(tag+".entries", vpBound("entries")+1)
-		for i := 0; i < n; i++ {
-			name := vpNondetStringFrom(tag+".name", 2, "ab")
-			vpAssume(name != "")
-			if _, _, exists, _ := vpWalkTo(path+"/"+name, false, 0); exists != nil {
-				vpAssume(false)
-			}
-			vpTreeSpec(tag+".e", path+"/"+name, depth-1)
-		}
-	}
-}
